@@ -198,3 +198,265 @@ Proof.
   intros H. destruct (present_parse_total data) as (r & E & P). rewrite H in E. inversion E; subst.
   destruct P as [_ P]. eexists. exact P.
 Qed.
+
+(** ================= Part B ================= *)
+(** A group: the span of the name and the spans of the arguments, as [pe_new] records them. *)
+Definition gs : Type := (span * list span)%type.
+Definition flat1 (g : gs) : list posdata :=
+  from_name_and_arg (fst g) (fst g) :: map (from_name_and_arg (fst g)) (snd g).
+Definition flat (gl : list gs) : list posdata := concat (map flat1 gl).
+Definition olist {X} (o : option X) : list X := match o with Some x => [x] | None => [] end.
+Definition push (cur : option gs) (sp : span) : gs :=
+  match cur with Some (n, a) => (n, a ++ [sp]) | None => (sp, []) end.
+
+(** [group_words] at the level of spans: [pos] is the index of the first byte of the next word *)
+Fixpoint gw (pos : nat) (cur : option gs) (ws : list bytes) : list gs :=
+  match ws with
+  | [] => olist cur
+  | w :: r =>
+      let next := (pos + length w + 1)%nat in
+      match w with
+      | [] => gw next cur r
+      | _ :: _ => if beq w PRESENT_INTERNAL_AND_TRIMMED then olist cur ++ gw next None r
+                  else gw next (Some (push cur (pos, length w))) r
+      end
+  end.
+
+Lemma flat_app a b : flat (a ++ b) = flat a ++ flat b.
+Proof. unfold flat. rewrite map_app, concat_app. reflexivity. Qed.
+
+Lemma flat_push closed cur sp :
+  flat (closed ++ [push cur sp]) =
+  flat (closed ++ olist cur) ++ [from_name_and_arg (match cur with Some g => fst g | None => sp end) sp].
+Proof.
+  rewrite !flat_app. rewrite <- app_assoc. f_equal.
+  destruct cur as [[n a]|]; unfold flat, flat1; cbn [olist push map concat fst snd].
+  - rewrite !app_nil_r, map_app. reflexivity.
+  - reflexivity.
+Qed.
+
+(** ---- the byte loop on words ---- *)
+Lemma is_sep_space : is_sep SPACE = true. Proof. reflexivity. Qed.
+
+Lemma word_scan dso data : forall w rest' pos start ln hc acc,
+  forallb (fun c => negb (is_sep c)) w = true -> (start <= pos)%nat ->
+  pe_loop dso data (w ++ rest') pos start ln hc acc = pe_loop dso data rest' (pos + length w)%nat start ln hc acc.
+Proof.
+  induction w as [|c w IH]; intros rest' pos start ln hc acc Hw Hs.
+  - cbn [app length]. rewrite Nat.add_0_r. reflexivity.
+  - cbn [forallb] in Hw. apply andb_true_iff in Hw as [Hc Hw]. apply negb_true_iff in Hc.
+    cbn [app pe_loop length]. destruct (Nat.ltb_spec pos start); [lia|]. rewrite Hc.
+    rewrite IH by (try assumption; lia). f_equal. lia.
+Qed.
+
+Lemma skip_scan dso data : forall pre' rest' pos start ln hc acc,
+  (pos + length pre' <= start)%nat ->
+  pe_loop dso data (pre' ++ rest') pos start ln hc acc = pe_loop dso data rest' (pos + length pre')%nat start ln hc acc.
+Proof.
+  induction pre' as [|c p IH]; intros rest' pos start ln hc acc Hs.
+  - cbn [app length]. rewrite Nat.add_0_r. reflexivity.
+  - cbn [app pe_loop length] in *. destruct (Nat.ltb_spec pos start); [|lia].
+    rewrite IH by lia. f_equal. lia.
+Qed.
+
+Lemma slice_word (pre w x : bytes) : slice (length pre) (length pre + length w) (pre ++ w ++ x) = w.
+Proof.
+  unfold slice. rewrite skipn_app, skipn_all, Nat.sub_diag. cbn [skipn app].
+  replace (length pre + length w - length pre)%nat with (length w) by lia.
+  rewrite firstn_app, firstn_all, Nat.sub_diag. cbn [firstn]. apply app_nil_r.
+Qed.
+
+(** one iteration at a separator, with the token already sliced *)
+Definition pushf (ln : option span) (acc : list posdata) (start len : nat) (tok : bytes) : option span * list posdata :=
+  if Nat.ltb 0 len && negb (beq tok PRESENT_INTERNAL_AND_TRIMMED) then
+    match ln with
+    | Some name => (ln, acc ++ [from_name_and_arg name (start, len)])
+    | None => (Some (start, len), acc ++ [from_name_and_arg (start, len) (start, len)])
+    end
+  else (ln, acc).
+
+Lemma pe_step_sep dso data byte rest' pos start ln hc acc tok :
+  (start <= pos)%nat -> is_sep byte = true -> slice_chk start pos data = Ok tok -> utf8_valid tok = true ->
+  pe_loop dso data (byte :: rest') pos start ln hc acc =
+  let r := pushf ln acc start (pos - start) tok in
+  let has_cr1 := hc || (byte =? CR) in
+  if byte =? LF then Ok (Some (snd r, dso pos has_cr1))
+  else if starts_with PRESENT_INTERNAL_AND (byte :: rest')
+  then pe_loop dso data rest' (S pos) (pos + 4)%nat None has_cr1 (snd r)
+  else pe_loop dso data rest' (S pos) (pos + 1)%nat (fst r) has_cr1 (snd r).
+Proof.
+  intros Hs Hsep Hsl Hu. cbn [pe_loop]. destruct (Nat.ltb_spec pos start); [lia|].
+  rewrite Hsep, Hsl, Hu. cbn [negb]. unfold pushf.
+  destruct (Nat.ltb 0 (pos - start) && negb (beq tok PRESENT_INTERNAL_AND_TRIMMED)); [destruct ln|]; reflexivity.
+Qed.
+
+Definition nonempty (w : bytes) : bool := match w with [] => false | _ => true end.
+Definition cur_after (cur : option gs) (pos : nat) (w : bytes) : option gs :=
+  if nonempty w && negb (beq w PRESENT_INTERNAL_AND_TRIMMED) then Some (push cur (pos, length w)) else cur.
+
+Lemma pushf_spec closed cur pos w :
+  pushf (option_map fst cur) (flat (closed ++ olist cur)) pos (length w) w
+  = (option_map fst (cur_after cur pos w), flat (closed ++ olist (cur_after cur pos w))).
+Proof.
+  unfold pushf, cur_after. destruct w as [|c w]; [reflexivity|].
+  cbn [length nonempty]. change (Nat.ltb 0 (S (length w))) with true. cbn [andb].
+  destruct (beq (c :: w) PRESENT_INTERNAL_AND_TRIMMED); cbn [negb]; [reflexivity|].
+  cbn [olist]. rewrite flat_push. destruct cur as [[n a]|]; reflexivity.
+Qed.
+
+Lemma gw_step pos cur w r :
+  cur = None \/ r = [] \/ beq w PRESENT_INTERNAL_AND_TRIMMED = false ->
+  gw pos cur (w :: r) = gw (pos + length w + 1) (cur_after cur pos w) r.
+Proof.
+  intros H. cbn [gw]. unfold cur_after. destruct w as [|c w]; [reflexivity|]. cbn [nonempty andb].
+  destruct (beq (c :: w) PRESENT_INTERNAL_AND_TRIMMED) eqn:Eb; cbn [negb]; [|reflexivity].
+  destruct H as [->|[->|H]]; [reflexivity| |discriminate].
+  cbn [gw]. rewrite app_nil_r. reflexivity.
+Qed.
+
+Lemma word_ok_inv w : word_ok w = true -> forallb (fun c => negb (is_sep c)) w = true /\ utf8_valid w = true.
+Proof. unfold word_ok. intros H. apply andb_true_iff in H. exact H. Qed.
+
+Definition is_end (t : bytes) : Prop := exists c x, t = c :: x /\ (c = CR \/ c = LF).
+
+Lemma line_end_is_end crlf rest : is_end (line_end crlf ++ rest).
+Proof. destruct crlf; cbn; eexists _, _; split; [reflexivity|auto| reflexivity|auto]. Qed.
+
+Definition has_more {X} (l : list X) : bool := match l with [] => false | _ => true end.
+
+(** the look-ahead [range.starts_with(" &> ")] at a space: the next word is [&>] and a space follows it *)
+Lemma and_lookahead w2 r2 t : word_ok w2 = true -> is_end t ->
+  starts_with PRESENT_INTERNAL_AND (SPACE :: render_words (w2 :: r2) ++ t)
+  = beq w2 PRESENT_INTERNAL_AND_TRIMMED && has_more r2.
+Proof.
+  intros Hw (c & x & -> & Hc). apply word_ok_inv in Hw as [Hw _].
+  assert (Hd : exists d Z, render_words (w2 :: r2) ++ c :: x = w2 ++ d :: Z /\
+                           is_sep d = true /\ (d =? SPACE) = has_more r2).
+  { destruct r2 as [|w3 r3].
+    - exists c, x. split; [reflexivity|]. destruct Hc as [-> | ->]; split; reflexivity.
+    - exists SPACE, (render_words (w3 :: r3) ++ c :: x). split; [|split; reflexivity].
+      cbn [render_words]. rewrite <- app_assoc. reflexivity. }
+  destruct Hd as (d & Z & -> & Hsd & Hds).
+  unfold PRESENT_INTERNAL_AND, PRESENT_INTERNAL_AND_TRIMMED.
+  unfold is_sep in Hsd.
+  destruct w2 as [|a [|b [|c0 w']]]; cbn [starts_with app beq forallb] in *.
+  - change (SPACE =? SPACE) with true. cbn [andb].
+    destruct (N.eqb_spec 38 d) as [<-|_]; [discriminate Hsd|reflexivity].
+  - change (32 =? SPACE) with true. cbn [andb].
+    destruct (N.eqb_spec 62 d) as [<-|_]; [discriminate Hsd|]. rewrite !andb_false_r. reflexivity.
+  - change (32 =? SPACE) with true. cbn [andb]. rewrite !andb_true_r.
+    rewrite (N.eqb_sym 38 a), (N.eqb_sym 62 b). rewrite <- Hds. rewrite (N.eqb_sym 32 d).
+    change SPACE with 32. destruct (a =? 38), (b =? 62), (d =? 32); reflexivity.
+  - change (32 =? SPACE) with true. cbn [andb].
+    apply andb_true_iff in Hw as [_ Hw]. apply andb_true_iff in Hw as [_ Hw]. apply andb_true_iff in Hw as [Hc0 _].
+    apply negb_true_iff in Hc0. unfold is_sep in Hc0.
+    destruct (N.eqb_spec 32 c0) as [<-|_]; [discriminate Hc0|]. rewrite !andb_false_r. reflexivity.
+Qed.
+
+Lemma render_words_cons w w2 r2 : render_words (w :: w2 :: r2) = w ++ SPACE :: render_words (w2 :: r2).
+Proof. reflexivity. Qed.
+
+Lemma slice_chk_word (data pre w x : bytes) : data = pre ++ w ++ x ->
+  slice_chk (length pre) (length pre + length w) data = Ok w.
+Proof.
+  intros ->. rewrite slice_chk_ok; [rewrite slice_word; reflexivity|lia|rewrite !app_length; lia].
+Qed.
+
+Lemma slice_chk_empty (data : bytes) lo hi : lo = hi -> (hi <= length data)%nat -> slice_chk lo hi data = Ok [].
+Proof.
+  intros -> H. rewrite slice_chk_ok by lia. unfold slice. rewrite Nat.sub_diag. reflexivity.
+Qed.
+
+Lemma gw_and pos cur r : gw pos cur (PRESENT_INTERNAL_AND_TRIMMED :: r) = olist cur ++ gw (pos + 3) None r.
+Proof.
+  change (gw pos cur (PRESENT_INTERNAL_AND_TRIMMED :: r)) with (olist cur ++ gw (pos + 2 + 1) None r).
+  replace (pos + 2 + 1)%nat with (pos + 3)%nat by lia. reflexivity.
+Qed.
+
+Section Words.
+Variable data : bytes.
+
+Lemma pe_words : forall n ws, (length ws <= n)%nat -> forall w r, ws = w :: r ->
+  forall pre closed cur hc crlf rest,
+  data = pre ++ render_words (w :: r) ++ line_end crlf ++ rest ->
+  Forall (fun w => word_ok w = true) (w :: r) ->
+  (cur = None \/ r = [] \/ beq w PRESENT_INTERNAL_AND_TRIMMED = false) ->
+  pe_loop data_start_fixed data (render_words (w :: r) ++ line_end crlf ++ rest) (length pre) (length pre)
+          (option_map fst cur) hc (flat (closed ++ olist cur))
+  = Ok (Some (flat (closed ++ gw (length pre) cur (w :: r)),
+              (length pre + length (render_words (w :: r)) + length (line_end crlf))%nat)).
+Proof.
+  induction n as [|n IH]; intros ws Hn w r -> pre closed cur hc crlf rest Hd HF Hside; [cbn [length] in Hn; lia|].
+  pose proof (Forall_inv HF) as Hw. pose proof (Forall_inv_tail HF) as HFr. cbv beta in Hw.
+  destruct (word_ok_inv w Hw) as [Hns Hu].
+  rewrite (gw_step _ _ _ _ Hside).
+  set (cur1 := cur_after cur (length pre) w).
+  set (p := (length pre + length w)%nat).
+  destruct r as [|w2 r2].
+  - (* the last word, then the line end *)
+    cbn [render_words] in *.
+    rewrite word_scan by (try assumption; lia). fold p.
+    assert (Hsl : slice_chk (length pre) p data = Ok w) by (apply (slice_chk_word data pre w _ Hd)).
+    assert (Hlen : length data = (p + length (line_end crlf) + length rest)%nat)
+      by (rewrite Hd, !app_length; unfold p; lia).
+    destruct crlf; cbn [line_end app length] in *.
+    + rewrite (pe_step_sep _ _ CR (LF :: rest) p (length pre) _ _ _ w) by (try assumption; try reflexivity; lia).
+      replace (p - length pre)%nat with (length w) by lia. rewrite pushf_spec. fold cur1. cbn [fst snd].
+      change (CR =? LF) with false. cbv iota.
+      change (starts_with PRESENT_INTERNAL_AND (CR :: LF :: rest)) with false. cbv iota.
+      rewrite (pe_step_sep _ _ LF rest (S p) (p + 1)%nat _ _ _ []);
+        [|lia|reflexivity|apply slice_chk_empty; lia|reflexivity].
+      replace (S p - (p + 1))%nat with 0%nat by lia.
+      change (LF =? LF) with true. cbv iota. unfold pushf. cbn [Nat.ltb Nat.leb andb snd gw].
+      unfold data_start_fixed. do 2 f_equal. apply pair_equal_spec. split; [reflexivity|unfold p; lia].
+    + rewrite (pe_step_sep _ _ LF rest p (length pre) _ _ _ w) by (try assumption; try reflexivity; lia).
+      replace (p - length pre)%nat with (length w) by lia. rewrite pushf_spec. fold cur1. cbn [fst snd gw].
+      change (LF =? LF) with true. cbv iota. unfold data_start_fixed. reflexivity.
+  - (* a word followed by a space *)
+    pose proof (Forall_inv HFr) as Hw2. pose proof (Forall_inv_tail HFr) as HFr2. cbv beta in Hw2.
+    rewrite render_words_cons in *.
+    set (RW2 := render_words (w2 :: r2)) in *.
+    set (t := line_end crlf ++ rest) in *.
+    rewrite <- app_assoc in Hd. rewrite <- app_comm_cons in Hd.
+    rewrite <- app_assoc, <- app_comm_cons.
+    rewrite word_scan by (try assumption; lia). fold p.
+    assert (Hsl : slice_chk (length pre) p data = Ok w) by (apply (slice_chk_word data pre w _ Hd)).
+    rewrite (pe_step_sep _ _ SPACE (RW2 ++ t) p (length pre) _ _ _ w) by (try assumption; try reflexivity; lia).
+    replace (p - length pre)%nat with (length w) by lia. rewrite pushf_spec. fold cur1. cbn [fst snd].
+    change (SPACE =? LF) with false. cbv iota.
+    unfold RW2 at 1. unfold t at 1. rewrite (and_lookahead w2 r2 _ Hw2 (line_end_is_end crlf rest)).
+    fold t. fold RW2.
+    (* the continuation without the [ &> ] jump *)
+    assert (Hnoskip : (cur1 = None \/ r2 = [] \/ beq w2 PRESENT_INTERNAL_AND_TRIMMED = false) ->
+      pe_loop data_start_fixed data (RW2 ++ t) (S p) (p + 1)%nat (option_map fst cur1) (hc || (SPACE =? CR)) (flat (closed ++ olist cur1))
+      = Ok (Some (flat (closed ++ gw (length pre + length w + 1) cur1 (w2 :: r2)),
+                  (length pre + length (w ++ SPACE :: RW2) + length (line_end crlf))%nat))).
+    { intros Hside2.
+      assert (Hl' : length (pre ++ w ++ [SPACE]) = (p + 1)%nat) by (rewrite !app_length; cbn [length]; unfold p; lia).
+      assert (Hd' : data = (pre ++ w ++ [SPACE]) ++ RW2 ++ t) by (rewrite Hd; repeat rewrite <- app_assoc; reflexivity).
+      pose proof (IH (w2 :: r2) ltac:(cbn [length] in *; lia) w2 r2 eq_refl (pre ++ w ++ [SPACE]) closed cur1
+                     (hc || (SPACE =? CR)) crlf rest Hd' HFr Hside2) as R.
+      rewrite Hl' in R. replace (S p) with (p + 1)%nat by lia. fold RW2 t in R. etransitivity; [exact R|].
+      do 2 f_equal. apply pair_equal_spec. split.
+      - unfold p. reflexivity.
+      - rewrite app_length. cbn [length]. unfold p. lia. }
+    destruct (beq w2 PRESENT_INTERNAL_AND_TRIMMED) eqn:Eb2; [destruct r2 as [|w3 r3]|]; cbn [has_more andb].
+    + apply Hnoskip. right. left. reflexivity.
+    + (* [ &> ] and a further word: the jump *)
+      apply beq_eq in Eb2. subst w2. clear Hnoskip.
+      assert (Er : RW2 ++ t = [38; 62; 32] ++ render_words (w3 :: r3) ++ t) by reflexivity.
+      rewrite Er. rewrite skip_scan by (cbn [length]; lia).
+      assert (Ep : Nat.add (S p) (length ([38; 62; 32]%N : bytes)) = (p + 4)%nat) by (cbn [length]; lia). rewrite Ep.
+      assert (Hl' : length (pre ++ w ++ SPACE :: [38; 62; 32]) = (p + 4)%nat) by (rewrite !app_length; cbn [length]; unfold p; lia).
+      assert (Hd' : data = (pre ++ w ++ SPACE :: [38; 62; 32]) ++ render_words (w3 :: r3) ++ t).
+      { rewrite Hd. unfold RW2. rewrite render_words_cons. repeat rewrite <- app_assoc. reflexivity. }
+      pose proof (IH (w3 :: r3) ltac:(cbn [length] in *; lia) w3 r3 eq_refl (pre ++ w ++ SPACE :: [38; 62; 32])
+                     (closed ++ olist cur1) None (hc || (SPACE =? CR)) crlf rest Hd' HFr2 (or_introl eq_refl)) as R.
+      rewrite Hl' in R. cbn [option_map olist] in R. rewrite app_nil_r in R. fold t in R. etransitivity; [exact R|].
+      do 2 f_equal. apply pair_equal_spec. split.
+      * rewrite gw_and. rewrite <- app_assoc. replace (p + 1 + 3)%nat with (p + 4)%nat by lia. reflexivity.
+      * unfold RW2. rewrite render_words_cons. rewrite !app_length. cbn [length]. rewrite app_length. cbn [length].
+        change (length PRESENT_INTERNAL_AND_TRIMMED) with 2%nat. unfold p. lia.
+    + apply Hnoskip. right. right. reflexivity.
+Qed.
+End Words.
